@@ -210,6 +210,14 @@ class HierDictDocument(DictDocument):
                 if cls_attrs.empty_is_none and inst in (u'', b''):
                     inst = None
 
+                if issubclass(cls, Unicode) and isinstance(inst,
+                                                              six.binary_type):
+                    # (MessagePack: text as bin) the facets are about the text
+                    try:
+                        inst = self.unicode_from_bytes(cls, inst)
+                    except UnicodeDecodeError:
+                        raise ValidationError([key, inst])
+
                 if issubclass(cls, ByteArray):
                     # binary data, or its text in the encoding that applies: a
                     # number, a list or a map is neither
